@@ -405,10 +405,15 @@ func (q *QueryRangeService) prepareOutput(ctx context.Context, query string, fro
 
 	_ctx, cancel := context.WithCancel(ctx)
 
+	// metric queries work on whole seconds; a log query reads exactly [from, to)
+	from, to := time.Unix(fromNs/1000000000, 0), time.Unix(toNs/1000000000, 0)
+	if !chain[0].IsMatrix() {
+		from, to = time.Unix(0, fromNs), time.Unix(0, toNs)
+	}
 	plannerCtx := tables.PopulateTableNames(&shared.PlannerContext{
 		IsCluster:  conn.Config.ClusterName != "",
-		From:       time.Unix(fromNs/1000000000, 0),
-		To:         time.Unix(toNs/1000000000, 0),
+		From:       from,
+		To:         to,
 		OrderASC:   forward,
 		Limit:      int64(limit),
 		Ctx:        _ctx,
